@@ -35,6 +35,9 @@ FORMAT_PREDICATES = {
 }
 
 
+COUNT_KEYWORDS = ("minLength", "maxLength", "minItems", "maxItems", "minProperties", "maxProperties")
+
+
 class Cfg:
     """Generator switches (exclusion by construction is done here)."""
 
@@ -51,7 +54,9 @@ class Cfg:
         required_undeclared=True,
         descriptions=False,
         falsy_composition_default=True,
+        degenerate=True,
     ):
+        self.degenerate = degenerate
         self.depth = depth
         self.defaults = defaults
         self.formats = formats
@@ -289,6 +294,38 @@ def schemas(draw, cfg=None, depth=None, _counter=None):
         if cfg.descriptions and draw(st.booleans()):
             s["description"] = draw(st.sampled_from(["d", "a description", "Line one\nline two", "cr\rlf", "crlf\r\nline", "tab\there",
                                                       'quote " and \\ backslash', ""]))
+    if "type" not in s and draw(st.integers(0, 3)) == 0:
+        # what real documents look like: the keywords of ONE type together with that type (typed elements are other
+        # classes of the library than the untyped one, with their own construction, repr and annotation)
+        fitting = [t for g, ts in (("numeric", ["number", "integer"]), ("string", ["string"]), ("array", ["array"]),
+                                   ("object", ["object"])) if g in groups for t in ts]
+        if fitting:
+            s["type"] = draw(st.sampled_from(fitting))
+    if getattr(cfg, "degenerate", True) and draw(st.integers(0, 6)) == 0:
+        # degenerate but legal spellings that real documents contain: count keywords written as integral floats
+        # (Draft 6 reads 2.0 as an integer), empty containers as keyword values, the empty annotation, a boolean
+        # schema where the generator put a schema
+        for kw in COUNT_KEYWORDS:
+            if kw in s and isinstance(s[kw], int) and not isinstance(s[kw], bool) and draw(st.booleans()):
+                s[kw] = float(s[kw])
+        for kw in ("patternProperties", "dependencies", "properties"):
+            if kw not in s and draw(st.integers(0, 3)) == 0:
+                s[kw] = {}
+        if "required" not in s and draw(st.integers(0, 3)) == 0:
+            s["required"] = []
+        for kw in ("items", "additionalItems", "contains", "propertyNames", "not", "additionalProperties"):
+            if isinstance(s.get(kw), dict) and draw(st.integers(0, 5)) == 0:
+                s[kw] = draw(st.sampled_from([True, False, {}]))
+        for kw in ("properties", "patternProperties", "dependencies"):
+            if isinstance(s.get(kw), dict) and s[kw] and draw(st.integers(0, 3)) == 0:
+                k = draw(st.sampled_from(sorted(s[kw])))
+                s[kw][k] = draw(st.sampled_from([True, False, False, {}] + ([[]] if kw == "dependencies" else [])))
+        for kw in ("anyOf", "oneOf", "allOf"):
+            if isinstance(s.get(kw), list) and draw(st.integers(0, 3)) == 0:
+                i = draw(st.integers(0, len(s[kw])))
+                s[kw].insert(i, draw(st.sampled_from([True, False, {}])))
+        if cfg.descriptions and draw(st.integers(0, 3)) == 0:
+            s["description"] = ""
     # Parser precondition: anything that may be parsed as an object class needs a title.
     t = s.get("type")
     if t == "object" or (isinstance(t, list) and "object" in t):
